@@ -396,6 +396,20 @@ func firstDiff(a, b string) string {
 }
 
 // v6Fix: the DHCPv6 half of oracle c06.
+// cutEmbeddedNames applies the one listed normalisation that is visible in a decoded
+// value: an embedded DHCPv4 message (option 87) whose sname / file field fills its
+// 64 / 128 octets without a NUL is cut to 63 / 127 octets by the encoder ("names
+// cut to their NUL-terminated capacity"; Lean: C06_v6_normalised, C06_v6_counterexample).
+var (
+	reSname64 = regexp.MustCompile(`sname=([0-9a-f]{126})[0-9a-f]{2}\b`)
+	reFile128 = regexp.MustCompile(`file=([0-9a-f]{254})[0-9a-f]{2}\b`)
+)
+
+func cutEmbeddedNames(s string) string {
+	s = reSname64.ReplaceAllString(s, "sname=$1")
+	return reFile128.ReplaceAllString(s, "file=$1")
+}
+
 func v6Fix(res *OracleResult, r *Rng, n int, thorough bool, seeds []string, seen map[uint64]struct{}) {
 	run := func(b []byte, tag string) {
 		res.Evaluations++
@@ -436,7 +450,7 @@ func v6Fix(res *OracleResult, r *Rng, n int, thorough bool, seeds []string, seen
 				}
 				return
 			}
-			if s0, s1 := stripLabelOriginals(sxMsg6(m0)), stripLabelOriginals(sxMsg6(m1)); s0 != s1 {
+			if s0, s1 := cutEmbeddedNames(stripLabelOriginals(sxMsg6(m0))), cutEmbeddedNames(stripLabelOriginals(sxMsg6(m1))); s0 != s1 {
 				// the listed normalisations live in the bytes, not in the decoded
 				// value, except the ones the decoder itself performs on b1
 				what = "decoded value changed after re-encoding: " + firstDiff(s0, s1)
